@@ -100,7 +100,7 @@ def envOf (cells : List ((Nat × Nat) × Val Float)) : Env Float := fun r c =>
   | none => .empty
 
 def encVal : Val Float → String
-  | .num n => "n" ++ hex16 (fbits n)
+  | .num n => "n" ++ hex16 (fbits (if n == 0.0 then 0.0 else n))   -- the sign of a zero result is not compared
   | .str s => "s" ++ hexEncode s
   | .bool b => if b then "b1" else "b0"
   | .err e => "e" ++ errCode e
